@@ -267,6 +267,8 @@ pub fn prelude() -> Vec<Top> {
         Top::Blob { name: "PF".into(), fields: vec![("f".into(), Ty::PuFn(vec![Ty::Int], Box::new(Ty::Int)))] },
         Top::Def { name: "k".into(), mutable: false, ty: None, value: int(7) },
         Top::Def { name: "m".into(), mutable: true, ty: None, value: int(0) },
+        // a mutable global that holds a pure function
+        Top::Def { name: "mfp".into(), mutable: true, ty: None, value: Expr::Fn(std::sync::Arc::new(FnLit { params: vec![("q".to_string(), Some(Ty::Int))], ret: RetAnn::Ty(Ty::Int), body: vec![Stmt::Expr(var("q"))], pure: true })) },
     ]
 }
 
